@@ -463,8 +463,13 @@ def string_switch_confusion(case):
     return any(case["sel"][n]["string"] != cur for n in case["uns"])
 
 
+def gen():
+    from translator import c05_order
+    vlib.write_if_changed(os.path.join(vlib.COQ, "Gen", "Gen_C05.v"), c05_order.generate(vlib.REPO))
+
+
 def run(ctx):
-    ok = vlib.coq_stage(ctx, "Props/Properties_C05.vo")
+    ok = vlib.coq_stage(ctx, "Props/Properties_C05.vo", gen=gen)
     sodrive = vlib.build_harness("sodrive", ["sodrive.cpp"])
     wexe = wrap.build_wdrive()
     mexe = wrap.build_model_driver()
